@@ -4,6 +4,7 @@ import (
 	"fmt"
 	"go/token"
 	"go/types"
+	"sort"
 	"strings"
 
 	"golang.org/x/tools/go/ssa"
@@ -28,6 +29,7 @@ func c10(c *Ctx) {
 	workersClamp(c, "C10.R7", "core/mr")
 	// R9: at most the configured number of mappers run at once — the semaphore is sized from the configured count
 	semaphoreCapacity(c, "C10.R9", "core/mr", "executeMappers", "workers")
+	c10panicHandoff(c)
 	c10panicChanPairing(c)
 }
 
@@ -754,4 +756,42 @@ func c10panicChanPairing(c *Ctx) {
 	sortStrings(bad)
 	o := c.R.Check(len(bad) == 0 && sites >= 1, rule, mrPkg+".buildSource#panic-channel", "every generated source is consumed by mapReduceWithPanicChan together with the panic channel its generator was started with", "-", strings.Join(bad, "; "), bad, sites)
 	o.Sites = sites
+}
+
+// c10panicHandoff (R10, round 5): "the call returns — without deadlocking — … and once the user functions have returned
+// no goroutine started by the call remains alive". A goroutine that recovered a user panic hands the value over with
+// onceChan.write: one send at most (guarded by the CAS). That send must not be able to block: the caller may already
+// have left its select (deadline passed, output received, cancelled), and what the panicking goroutine does *after*
+// the send is what everybody else waits for (close(source) behind the generator's write, finish() behind the
+// reducer's). Every channel stored into onceChan.channel is therefore created with capacity ≥ 1.
+func c10panicHandoff(c *Ctx) {
+	rule := "C10.R10"
+	var bad []string
+	sites := 0
+	for _, f := range c.P.AllFuncs(mrPkg) {
+		for _, b := range f.Blocks {
+			for _, ins := range b.Instrs {
+				st, ok := ins.(*ssa.Store)
+				if !ok {
+					continue
+				}
+				fa, ok := st.Addr.(*ssa.FieldAddr)
+				if !ok || fieldNameOf(fa) != "channel" || !strings.HasSuffix(typeString(fa.X.Type()), mrPkg+".onceChan") {
+					continue
+				}
+				sites++
+				mc, ok := st.Val.(*ssa.MakeChan)
+				if !ok {
+					bad = append(bad, c.P.Pos(st.Pos())+": the panic channel is not made here (capacity unknown)")
+					continue
+				}
+				k, ok := mc.Size.(*ssa.Const)
+				if !ok || k.Value == nil || k.Int64() < 1 {
+					bad = append(bad, fmt.Sprintf("%s: %s creates the panic hand-off channel without a buffer: a goroutine that panics after the caller left its select (deadline, output received) blocks in the send for ever — and the generator closes the source, the reducer finishes the output, only after that send", c.P.Pos(st.Pos()), funcDisplay(f)))
+				}
+			}
+		}
+	}
+	sort.Strings(bad)
+	c.R.Check(len(bad) == 0 && sites >= 3, rule, mrPkg+".onceChan.channel#capacity", "the channel a recovered panic is handed over on has capacity >= 1 (the single send can never block the goroutine whose remaining deferred work — close(source), finish() — others wait for)", "-", fmt.Sprintf("%d creation sites; %s", sites, strings.Join(bad, "; ")), bad, sites)
 }
